@@ -61,3 +61,54 @@ fn c16_frames_with_offset_bounded() {
     assert!((n > 0) == (consumed > 0));
 }
 
+
+/// RFC 7540 6.2: header block fragment = payload minus Pad Length octet, priority fields, padding.
+/// Oracle written from the frame layout, independent of the code's control flow.
+#[kani::proof]
+#[kani::unwind(14)]
+fn c16_fragment_bounded() {
+    const P: usize = 12;
+    let buf: [u8; P] = kani::any();
+    let len: usize = kani::any();
+    kani::assume(len <= P);
+    let flags: u8 = kani::any();
+    let payload = &buf[..len];
+    let padded = flags & 0x08 == 0x08;
+    let prio = flags & 0x20 == 0x20;
+    let head = (if padded { 1 } else { 0 }) + (if prio { 5 } else { 0 });
+    let r = headers_block_fragment(payload, flags);
+    if len < head || (padded && (buf[0] as usize) > len - head) {
+        assert!(r.is_none());
+    } else {
+        let pad = if padded { buf[0] as usize } else { 0 };
+        let frag = r.unwrap();
+        assert!(frag.len() == len - head - pad);
+        let i: usize = kani::any();
+        kani::assume(i < frag.len());
+        assert!(frag[i] == buf[head + i]);
+    }
+}
+
+/// RFC 7540 6.10: HEADERS + CONTINUATION of one stream give ONE block (fragment ++ continuation payload);
+/// a frame of another stream in between contributes nothing
+#[kani::proof]
+#[kani::unwind(6)]
+fn c16_blocks_bounded() {
+    let a: [u8; 3] = kani::any();
+    let b: [u8; 2] = kani::any();
+    let sid: u32 = kani::any();
+    let other: u32 = kani::any();
+    kani::assume(other != sid);
+    let hflags: u8 = kani::any();
+    kani::assume(hflags & 0x28 == 0); // plain fragment: the layout is c16_fragment_bounded's business
+    let mid_type: u8 = kani::any();
+    let frames = [
+        Http2Frame::new(0x1, hflags, sid, a.to_vec()),
+        Http2Frame::new(mid_type, kani::any(), other, b.to_vec()),
+        Http2Frame::new(0x9, kani::any(), sid, b.to_vec()),
+    ];
+    let blocks = collect_header_blocks(sid, &frames).unwrap();
+    assert!(blocks.len() == 1);
+    assert!(blocks[0].len() == 5);
+    assert!(blocks[0][0] == a[0] && blocks[0][2] == a[2] && blocks[0][3] == b[0] && blocks[0][4] == b[1]);
+}
